@@ -3,6 +3,7 @@ package main
 import (
 	"encoding/json"
 	"fmt"
+	"os"
 	"strings"
 	"sync"
 	"time"
@@ -33,6 +34,38 @@ type eraCase struct {
 }
 
 func rawj(v any) json.RawMessage { b, _ := json.Marshal(v); return b }
+
+// only restricts the storage-proof scenarios to one saved case (replay mode).
+var only *struct {
+	Version, Era, Leaves, Challenged int
+	Size                              uint64
+	Proof                             string
+}
+
+// replayProof re-executes the storage-proof case saved in the replay file.
+func replayProof(c *vlib.Ctx) {
+	b, err := os.ReadFile(c.Replay)
+	if err != nil {
+		c.Fatal("replay: %v", err)
+	}
+	var f struct {
+		What string `json:"what"`
+		Case struct {
+			Version, Era, Leaves, Challenged int
+			Size                              uint64
+			Proof                             string
+		} `json:"case"`
+	}
+	if err := json.Unmarshal(b, &f); err != nil || f.Case.Leaves == 0 {
+		c.Fatal("replay file holds neither a behaviour nor a storage-proof case")
+	}
+	only = &f.Case
+	fmt.Printf("replaying storage-proof case %+v; required: %s must not happen\n", f.Case, f.What)
+	proofs(c)
+	if c.NViolations() == 0 {
+		fmt.Println("observed: the saved case no longer violates the property on this tree")
+	}
+}
 
 func proofs(c *vlib.Ctx) {
 	cfgName := "StorageProof12.cfg"
@@ -100,12 +133,18 @@ func proofs(c *vlib.Ctx) {
 	}
 	variants := []variant{{1, 0}, {1, 1}, {1, 2}, {2, 2}}
 	for _, sh := range shapes {
-		if !c.Thorough && sh.N > 9 && (sh.N+sh.I+int(c.Seed))%3 != 0 {
+		if only != nil && (sh.N != only.Leaves || sh.I != only.Challenged) {
+			continue
+		}
+		if only == nil && !c.Thorough && sh.N > 9 && (sh.N+sh.I+int(c.Seed))%3 != 0 {
 			continue // quick tier: all shapes up to 9 leaves, a seeded third of the larger ones
 		}
 		for _, tail := range []uint64{1, 37, 64} {
 			size := uint64(64*(sh.N-1)) + tail
 			for _, v := range variants {
+				if only != nil && (size != only.Size || v.ver != only.Version || v.era != only.Era) {
+					continue
+				}
 				wg.Add(1)
 				sem <- struct{}{}
 				go func(sh shape, size uint64, v variant) {
@@ -262,6 +301,9 @@ func proofs(c *vlib.Ctx) {
 	c.Cov("storage_proof_chains", chains)
 	c.Cov("storage_proof_cases", cells)
 	c.Cov("storage_proof_challenge_not_reached", skipped)
+	if only != nil {
+		return
+	}
 	for _, need := range []string{"v1/era0/ok/true", "v1/era1/ok/true", "v1/era1/ok/false", "v1/era2/ok/true", "v2/era2/ok/true", "v1/era2/other/false", "v2/era2/other/false", "v1/era0/data/false", "v2/era2/short/false", "v2/era2/long/false"} {
 		if cells[need] == 0 {
 			c.Infra("vacuity: storage proof class %s never occurred", need)
